@@ -632,6 +632,7 @@ func (b *builder) field(fl *File, scope string, x *Field, extendee string, oneof
 	full := qual(scope, name)
 	fd := &descriptorpb.FieldDescriptorProto{Name: proto.String(name), Number: proto.Int32(int32(x.Number)), JsonName: proto.String(JSONName(name))}
 	isExt := extendee != ""
+	mapValEnum := "" // full name of a map field's enum value type
 	// rule 2
 	switch {
 	case x.Number < 1 || x.Number > maxTag:
@@ -777,6 +778,7 @@ func (b *builder) field(fl *File, scope string, x *Field, extendee string, oneof
 			default:
 				vf.Type = descriptorpb.FieldDescriptorProto_TYPE_ENUM.Enum()
 				vf.TypeName = proto.String("." + sym.Name)
+				mapValEnum = sym.Name
 				if e, _ := sym.Node.(*Enum); e != nil {
 					b.checkEnumUse(fl, full, sym, e)
 					for _, d := range e.Body {
@@ -866,7 +868,7 @@ func (b *builder) field(fl *File, scope string, x *Field, extendee string, oneof
 			}
 		case "features.repeated_field_encoding":
 			switch {
-			case !isRepeated || x.Map != nil:
+			case !isRepeated: // (a map field is a repeated field of a type that cannot be packed)
 				b.rej("feature-encoding-on-singular", "field %s: only repeated fields can specify repeated field encoding", full)
 			case !isRepeatable && o.Value == "PACKED":
 				b.rej("feature-packed-not-packable", "field %s: only repeated primitive fields can be packed", full)
@@ -895,6 +897,11 @@ func (b *builder) field(fl *File, scope string, x *Field, extendee string, oneof
 		if tn := strings.TrimPrefix(fd.GetTypeName(), "."); b.closed[tn] {
 			b.rej("implicit-field-closed-enum", "field %s has implicit presence and uses closed enum %s", full, tn)
 		}
+	}
+	// The generated value field of a map entry inherits the map field's features; protoc checks
+	// "implicit presence enum fields must always be open" on it before it skips generated fields.
+	if x.Map != nil && mapValEnum != "" && fl.Syntax == "2023" && fs.presence == "IMPLICIT" && b.closed[mapValEnum] {
+		b.rej("implicit-field-closed-enum", "map field %s: the value field has implicit presence and uses closed enum %s", full, mapValEnum)
 	}
 	for _, o := range x.Opts {
 		if isFeature(o.Name) {
@@ -942,7 +949,11 @@ func (b *builder) field(fl *File, scope string, x *Field, extendee string, oneof
 					b.unk("json_name literal %s", o.Value)
 				}
 			}
-			if isExt {
+			// protoc's descriptor builder complains only when the value differs from the default
+			// JSON name (descriptors it produced carry the default on every field)
+			if isExt && s == "" {
+				b.unk("empty json_name on an extension")
+			} else if isExt && s != JSONName(name) {
 				b.rej("json-name-on-extension", "extension %s has json_name", full)
 			}
 			if strings.HasPrefix(s, "[") && strings.HasSuffix(s, "]") {
